@@ -234,6 +234,13 @@ def normalise_program(trees: dict[str, ast.Module]) -> dict[str, list[str]]:
     exports: dict[str, dict[str, T.Any]] = {}
     class_exports: dict[str, dict[str, ast.ClassDef]] = {}
     known_classes: dict[str, set[str] | None] = {}
+    # names that other units import from each unit: a new helper / a method of a new class that is visible to another unit is
+    # never dropped by the unit's own pass (it may still be called there in a position the inliner cannot expand)
+    imported_from: dict[str, set[str]] = {}
+    for rel, tree in trees.items():
+        for st in ast.walk(tree):
+            if isinstance(st, ast.ImportFrom):
+                imported_from.setdefault(_abs_module(rel, st.level, st.module), set()).update(a.name for a in st.names)
     for rel, tree in trees.items():
         b = base.get(rel)
         known = set(b["__functions__"]) if b and b.get("__functions__") is not None else (set() if b is None else None)
@@ -251,7 +258,9 @@ def normalise_program(trees: dict[str, ast.Module]) -> dict[str, list[str]]:
             for m in c._methods:  # type: ignore[attr-defined]
                 m._in_class = True  # type: ignore[attr-defined]
         if b is not None:
-            notes[rel] += [f"{rel}: {n}" for n in inline_new_helpers(tree, known)]
+            seen_outside = imported_from.get(mod, set())
+            keep = {n for n in exports[mod] if n in seen_outside} | {m.name for cn, c in class_exports[mod].items() if cn in seen_outside for m in c._methods}  # type: ignore[attr-defined]
+            notes[rel] += [f"{rel}: {n}" for n in inline_new_helpers(tree, known, keep=keep)]
     for rel, tree in trees.items():
         if known_of.get(rel) is None:
             continue
@@ -272,6 +281,31 @@ def normalise_program(trees: dict[str, ast.Module]) -> dict[str, list[str]]:
                                 extern[m.name] = (m, src_mod, trees[src_rel])
         if extern:
             notes[rel] += [f"{rel}: {n}" for n in inline_new_helpers(tree, known_of[rel] or set(), extern=extern)]
+    # a helper that was kept for other units' sake and is referenced nowhere any more (every call site, in every unit, was expanded)
+    def referenced(name: str, definition: ast.AST) -> bool:
+        for t2 in trees.values():
+            for n in ast.walk(t2):
+                if n is definition:
+                    continue
+                if (isinstance(n, ast.Name) and n.id == name) or (isinstance(n, ast.Attribute) and n.attr == name):
+                    inside_def = False
+                    if not inside_def:
+                        return True
+        return False
+    for rel, tree in trees.items():
+        mod = rel[:-3].replace(os.sep, ".")
+        mod = mod[: -len(".__init__")] if mod.endswith(".__init__") else mod
+        for name, fn in list(exports.get(mod, {}).items()):
+            if fn in tree.body:
+                body_ids = {id(x) for x in ast.walk(fn)}
+                used = any(((isinstance(n, ast.Name) and n.id == name) or (isinstance(n, ast.Attribute) and n.attr == name)) and id(n) not in body_ids
+                           for t2 in trees.values() for n in ast.walk(t2))
+                if not used:
+                    tree.body.remove(fn)
+                    for t2 in trees.values():
+                        for st in list(t2.body):
+                            if isinstance(st, ast.ImportFrom):
+                                st.names = [a for a in st.names if a.name != name] or st.names
     from .records import scalarise
 
     for rel, ns in scalarise(trees, known_classes, _abs_module).items():
